@@ -136,3 +136,33 @@ func VerifC05Truncated() {
 	_, rerr := vReadAll(r, 2, len(x))
 	verifAssert(rerr != nil, "truncated-frame-rejected")
 }
+
+// VerifC08Frames (C08): frames delivered in pieces - split inside the checksum, the header,
+// the payload - decompress to the same bytes.
+func VerifC08Frames() {
+	m := vMethods[verifChoice("method", 2)]
+	w := NewWriter(LevelZero, m)
+	var stream, want []byte
+	for f := 0; f < 2; f++ {
+		x := verifBytes("payload", verifIntRange("len", 0, verifParam("maxlen", 2)))
+		if err := w.Compress(x); err != nil {
+			verifFail("compress")
+		}
+		stream = append(stream, w.Data...)
+		want = append(want, x...)
+	}
+	cr := &vChunkReader{data: stream}
+	if verifChoice("segmentation", 2) == 0 {
+		cr.policy = 0
+	} else {
+		cr.policy = 1
+		cr.k = verifIntRange("split", 1, len(stream)-1)
+	}
+	r := NewReader(cr)
+	got, err := vReadAll(r, verifIntRange("readsize", 1, 2), len(want))
+	verifAssert(err == nil, "segmented-frames-ok")
+	verifAssert(vBytesEq(got, want), "segmented-frames==payload")
+	n, err := vReadEnd(r)
+	verifAssert(n == 0 && err != nil, "segmented-frames-eof")
+	verifObserveU64("reads", uint64(cr.reads))
+}
